@@ -5,3 +5,7 @@ import LyModel.Props.C15
 #print axioms LyModel.Props.C15.pred_roundtrip_fails
 #print axioms LyModel.Props.C15.pred_roundtrip_partial
 #print axioms LyModel.Props.C15.path_parse_print
+#print axioms LyModel.Props.C15.path_finds_node
+#print axioms LyModel.Props.C15.new_path_exists
+#print axioms LyModel.Props.C15.new_path_chain_fails
+#print axioms LyModel.Props.C15.new_path_chain_partial
